@@ -542,3 +542,76 @@ Example depth_fixed_stops :
   let st := fst (run c (mkFix true true true) cyc_msg (init_state c) cyc_ops) in
   p_valid (handle st 1) = true /\ p_valid (handle st 2) = true /\ p_valid (handle st 3) = false.
 Proof. vm_compute. repeat split. Qed.
+
+(* ------------------------------------------------------------------ walk: fuel D+1 suffices *)
+Fixpoint tree_nofuel (t : tree) : bool :=
+  match t with
+  | TFuel => false
+  | TStruct _ ps => forallb tree_nofuel ps
+  | TPtrs _ es => forallb tree_nofuel es
+  | TComp _ _ es => forallb tree_nofuel es
+  | _ => true
+  end.
+
+(* the fuel a pointer needs: depth budget + 2; a struct whose depth budget is 0 (it cannot
+   be descended through) needs 1 *)
+Definition fuel_ok (p : Ptr) (fuel : nat) : Prop :=
+  p_depth p + 2 <= Z.of_nat fuel \/ (p_kind p = KStruct /\ p_depth p = 0 /\ (1 <= fuel)%nat).
+
+Lemma list_struct_depth' p i q : 0 <= p_depth p ->
+  list_struct true p i = Ok q -> p_valid q = true ->
+  p_kind q = KStruct /\ 0 <= p_depth q /\ (p_depth q <= p_depth p - 1 \/ (p_depth p = 0 /\ p_depth q = 0)).
+Proof.
+  intros Hd. unfold list_struct. destruct (p_valid p); cbn [negb orb]; [|discriminate].
+  dif; [discriminate|]. destruct (p_bit p); [intros H; inversion H; discriminate|].
+  destruct (element _ _ _); [|intros H; inversion H; discriminate].
+  intros H _. inversion H. pcbn. split; [reflexivity|]. cbn [andb].
+  destruct (p_depth p =? 0) eqn:E; [lia|]. pose proof (uint_dec_spec (p_depth p) ltac:(lia)). lia.
+Qed.
+
+Lemma walk_fuel c fx m dcap pcap : fx_depth fx = true ->
+  forall fuel rl r,
+  (forall p, r = Ok p -> p_valid p = true -> 0 <= p_depth p /\ fuel_ok p fuel) ->
+  tree_nofuel (fst (walk c fx m dcap pcap fuel rl r)) = true.
+Proof.
+  intros Hfd. induction fuel as [|f IH]; intros rl r Hr.
+  - destruct r as [p| |]; cbn [walk]; try reflexivity.
+    destruct (p_valid p) eqn:V; cbn [negb]; [|reflexivity].
+    destruct (Hr p eq_refl V) as [_ [H|(_ & _ & H)]]; exfalso; [|lia].
+    destruct (Hr p eq_refl V) as [H0 _]. cbn in H. lia.
+  - destruct r as [p| |]; cbn [walk]; try reflexivity.
+    destruct (p_valid p) eqn:V; cbn [negb]; [|reflexivity].
+    destruct (Hr p eq_refl V) as [Hd Hf]. clear Hr.
+    destruct (p_kind p) eqn:K.
+    + destruct (collect _ _ _); try reflexivity.
+      match goal with |- context [iter_rl ?n ?i ?rl ?g] =>
+        pose proof (iter_rl_Forall (fun t => tree_nofuel t = true) g n i rl) as Hit;
+        destruct (iter_rl n i rl g) as [ps rl'] end.
+      cbn [fst tree_nofuel]. apply forallb_Forall. apply Hit. intros j rl0 _.
+      destruct (struct_ptr c m rl0 p j) as [q rl1] eqn:Eq.
+      apply IH. intros q' -> Vq.
+      pose proof (struct_ptr_depth c m rl0 p j q' Hd) as H. rewrite Eq in H. specialize (H eq_refl Vq).
+      split; [lia|]. left. destruct Hf as [Hf|Hf]; lia.
+    + cbv zeta. destruct (p_bit p); [destruct (collect _ _ _); reflexivity|].
+      destruct Hf as [Hf|(Hf & _)]; [|congruence].
+      destruct (p_comp p).
+      { match goal with |- context [iter_rl ?n ?i ?rl ?g] =>
+          pose proof (iter_rl_Forall (fun t => tree_nofuel t = true) g n i rl) as Hit;
+          destruct (iter_rl n i rl g) as [ps rl'] end.
+        cbn [fst tree_nofuel]. apply forallb_Forall. apply Hit. intros j rl0 _.
+        apply IH. intros q Eq Vq. rewrite Hfd in Eq.
+        destruct (list_struct_depth' p j q Hd Eq Vq) as (Kq & Hq0 & Hq).
+        split; [assumption|]. unfold fuel_ok. destruct Hq as [Hq|[Hq1 Hq2]]; [left; lia|right].
+        repeat split; try assumption. lia. }
+      destruct (0 <? PointerCount (p_size p)).
+      { match goal with |- context [iter_rl ?n ?i ?rl ?g] =>
+          pose proof (iter_rl_Forall (fun t => tree_nofuel t = true) g n i rl) as Hit;
+          destruct (iter_rl n i rl g) as [ps rl'] end.
+        cbn [fst tree_nofuel]. apply forallb_Forall. apply Hit. intros j rl0 _.
+        destruct (ptrlist_at c (fx_upgrade fx) m rl0 p j) as [q rl1] eqn:Eq.
+        apply IH. intros q' -> Vq.
+        pose proof (ptrlist_at_depth c (fx_upgrade fx) m rl0 p j q' Hd) as H. rewrite Eq in H.
+        specialize (H eq_refl Vq). split; [lia|]. left. lia. }
+      destruct (_ =? 0); [reflexivity|]. destruct (collect _ _ _); reflexivity.
+    + reflexivity.
+Qed.
